@@ -26,7 +26,7 @@ Mem(k, n) == [k |-> k, n |-> n]
 Deep(kind, n) == [j |-> "deep", kind |-> kind, n |-> n]
 Raw(text) == [j |-> "raw", text |-> text]            \* literal bytes (huge numbers, NaN-ish tokens)
 HShapes == {
-  <<"null", [j |-> "null"]>>, <<"true", JBool(TRUE)>>, <<"false", JBool(FALSE)>>, <<"zero", JNum(0)>>, <<"int", JNum(42)>>, <<"neg", JNum(0 - 7)>>,
+  <<"null", [j |-> "null"]>>, <<"true", JBool(TRUE)>>, <<"false", JBool(FALSE)>>, <<"zero", JNum(0)>>, <<"int", JNum(42)>>, <<"neg", JNum(0 - 7)>>, <<"billion", JNum(1000000000)>>,
   <<"frac", JFlt("0.5")>>, <<"huge", Raw("1e400")>>, <<"neghuge", Raw("-1e400")>>, <<"bigint", Raw("123456789012345678901234567890")>>,
   <<"empty-str", JStr("")>>, <<"iri", JStr("https://example.com/x")>>, <<"word", JStr("not an iri")>>, <<"dash", JStr("-")>>,
   <<"quoted-json", JStr("{\"type\":\"Note\"}")>>,
@@ -45,7 +45,36 @@ TermsOf(g) == Terms(Props(g)) \cup {t \o "Map" : t \in {"name", "summary", "cont
 BaseMembers(g) == <<Mem("id", JStr(IdOf(g, 1))), Mem("type", JStr(DefaultType(g)))>>
 \* replace (or add) member t
 WithMember(ms, t, n) == SelectSeq(ms, LAMBDA m : m.k # t) \o <<Mem(t, n)>>
+\* a richer base: the hostile position sits next to well-formed lists, numbers and nested objects of the same value, so that
+\* a decoder step which COMBINES two members (a count with a list, a flag with an instant ...) meets the hostile one
+NoteM == JObj(<<Mem("id", JStr(Base \o "n/1")), Mem("type", JStr("Note")), Mem("content", JStr("c"))>>)
+CollM(members) == <<Mem(members, JArr(<<JStr(Base \o "m/1"), NoteM, JStr(Base \o "m/2")>>)), Mem("totalItems", JNum(3)), Mem("first", JStr(Base \o "p/1")),
+                    Mem("current", JStr(Base \o "p/1"))>>
+PageM == <<Mem("partOf", JStr(Base \o "c")), Mem("next", JStr(Base \o "p/2")), Mem("prev", JStr(Base \o "p/0"))>>
+OwnMembers(g) ==
+  CASE g = "Collection" -> CollM("items") [] g = "CollectionPage" -> CollM("items") \o PageM
+    [] g = "OrderedCollection" -> CollM("orderedItems") [] g = "OrderedCollectionPage" -> CollM("orderedItems") \o PageM \o <<Mem("startIndex", JNum(10))>>
+    [] g \in {"Activity", "IntransitiveActivity"} -> <<Mem("actor", JStr(Base \o "a")), Mem("target", NoteM)>> \o (IF g = "Activity" THEN <<Mem("object", NoteM)>> ELSE <<>>)
+    [] g = "Question" -> <<Mem("actor", JStr(Base \o "a")), Mem("oneOf", JArr(<<NoteM, JStr(Base \o "o/2")>>)), Mem("closed", JBool(TRUE))>>
+    [] g = "Place" -> <<Mem("latitude", JFlt("45.5")), Mem("longitude", JFlt("-122.5")), Mem("radius", JNum(10)), Mem("units", JStr("km"))>>
+    [] g = "Actor" -> <<Mem("inbox", JStr(Base \o "a/inbox")), Mem("preferredUsername", JStr("a")),
+                        Mem("endpoints", JObj(<<Mem("sharedInbox", JStr(Base \o "inbox"))>>)),
+                        Mem("publicKey", JObj(<<Mem("id", JStr(Base \o "a#k")), Mem("owner", JStr(Base \o "a")), Mem("publicKeyPem", JStr("pem"))>>))>>
+    [] g = "Tombstone" -> <<Mem("formerType", JStr("Note")), Mem("deleted", JStr("2023-11-14T22:13:20Z"))>>
+    [] g = "Profile" -> <<Mem("describes", NoteM)>>
+    [] g = "Relationship" -> <<Mem("subject", JStr(Base \o "a")), Mem("object", NoteM), Mem("relationship", JStr(Base \o "rel"))>>
+    [] OTHER -> <<>>
+RichMembers(g) ==
+  IF g = "Link" THEN BaseMembers(g) \o <<Mem("href", JStr(Base \o "h")), Mem("name", JStr("l")), Mem("width", JNum(640)), Mem("height", JNum(480)), Mem("preview", NoteM)>>
+  ELSE BaseMembers(g) \o <<Mem("name", JStr("n")), Mem("contentMap", JObj(<<Mem("en", JStr("c")), Mem("fr", JStr("d"))>>)),
+                            Mem("to", JArr(<<JStr(Base \o "a"), JStr(Base \o "b")>>)), Mem("published", JStr("2023-11-14T22:13:20Z")),
+                            Mem("duration", JStr("PT5S")), Mem("tag", JArr(<<NoteM>>)), Mem("source", JObj(<<Mem("content", JStr("s")), Mem("mediaType", JStr("text/plain"))>>))>>
+       \o OwnMembers(g)
+\* replacing keeps the member's POSITION in the rich base (a decoder that reads members in document order sees the rest afterwards)
+ReplaceMember(ms, t, n) == IF \E i \in 1..Len(ms) : ms[i].k = t THEN [i \in 1..Len(ms) |-> IF ms[i].k = t THEN Mem(t, n) ELSE ms[i]] ELSE ms \o <<Mem(t, n)>>
 HostileDoc(g, t, shape) == JObj(WithMember(BaseMembers(g), t, shape))
+RichDoc(g, t, shape) == JObj(ReplaceMember(RichMembers(g), t, shape))
+RichShapes == {"null", "true", "zero", "int", "neg", "billion", "frac", "huge", "neghuge", "bigint", "empty-str", "word", "dash", "empty-arr", "empty-obj", "arr-mixed"}
 Nest(d, how) == CASE how = "top" -> d
                     [] how = "in-object" -> JObj(<<Mem("id", JStr(Base \o "outer")), Mem("type", JStr("Create")), Mem("object", d)>>)
                     [] how = "in-list" -> JObj(<<Mem("id", JStr(Base \o "outer")), Mem("type", JStr("Note")), Mem("tag", JArr(<<JStr(Base \o "t1"), d>>))>>)
@@ -65,10 +94,12 @@ VARIABLES cell, outcome, follow
 vars == <<cell, outcome, follow>>
 NestFor(g) == IF Tier = "thorough" \/ g \in {"Object", "Activity", "OrderedCollectionPage"} THEN Nestings ELSE {"top"}
 CellTypes == IF Tier = "model" THEN {"Object", "Question", "Link", "OrderedCollectionPage"} ELSE GoTypes
-Cells == UNION {{[g |-> g, t |-> t, shape |-> s[1], nest |-> n] : t \in TermsOf(g), s \in HShapes, n \in NestFor(g)} : g \in CellTypes}
-         \cup {[g |-> "top", t |-> "document", shape |-> s[1], nest |-> "top"] : s \in HShapes}
+Cells == UNION {{[g |-> g, t |-> t, shape |-> s[1], nest |-> n, base |-> "min"] : t \in TermsOf(g), s \in HShapes, n \in NestFor(g)} : g \in CellTypes}
+         \cup UNION {{[g |-> g, t |-> t, shape |-> s, nest |-> n, base |-> "rich"] : t \in TermsOf(g), s \in RichShapes, n \in (IF Tier = "thorough" THEN Nestings ELSE {"top"})} : g \in CellTypes}
+         \cup {[g |-> "top", t |-> "document", shape |-> s[1], nest |-> "top", base |-> "min"] : s \in HShapes}
 ShapeNode(name) == (CHOOSE s \in HShapes : s[1] = name)[2]
-DocOf(c) == IF c.g = "top" THEN ShapeNode(c.shape) ELSE Nest(HostileDoc(c.g, c.t, ShapeNode(c.shape)), c.nest)
+DocOf(c) == IF c.g = "top" THEN ShapeNode(c.shape)
+            ELSE Nest(IF c.base = "rich" THEN RichDoc(c.g, c.t, ShapeNode(c.shape)) ELSE HostileDoc(c.g, c.t, ShapeNode(c.shape)), c.nest)
 Init == cell \in Cells /\ outcome = "none" /\ follow = [f |-> "none", o |-> "none"]
 Decode == outcome = "none" /\ outcome' \in Outcomes /\ UNCHANGED <<cell, follow>>
 Follow(f) == /\ outcome = "value" /\ \E o \in FollowOutcomes : follow' = [f |-> f, o |-> o]
